@@ -121,10 +121,8 @@ Definition unmarshal_primitive (norm : str -> str) (j : jv) (t : ty) : res value
   | _ => Panic
   end.
 
-Fixpoint json_unmarshal_at (norm : str -> str) (fuel : nat) (j : jv) (t : ty) : res value :=
-  match fuel with
-  | O => OutOfFuel
-  | S f =>
+(* one level of the decoder; [rec] decodes the members (the decoder with one unit of fuel less) *)
+Definition json_unmarshal_step (norm : str -> str) (rec : jv -> ty -> res value) (j : jv) (t : ty) : res value :=
     match j with
     | JNull => Ok (v_null t)
     | _ =>
@@ -146,7 +144,7 @@ Fixpoint json_unmarshal_at (norm : str -> str) (fuel : nat) (j : jv) (t : ty) : 
                               else Err OtherError
                           end) m None None;
               match tb with
-              | (Some t', Some body) => match json_unmarshal_at norm f body (strip_opt t') with   (* fix: commit bdce01e *)
+              | (Some t', Some body) => match rec body (strip_opt t') with   (* fix: commit bdce01e *)
                                         | Err _ => Err OtherError
                                         | r => r
                                         end
@@ -159,7 +157,7 @@ Fixpoint json_unmarshal_at (norm : str -> str) (fuel : nat) (j : jv) (t : ty) : 
           match j with
           | JArr l =>
               do vs <- (fix go (l : list jv) : res (list value) :=
-                          match l with [] => Ok [] | x :: l' => do v <- json_unmarshal_at norm f x e; do r <- go l'; Ok (v :: r) end) l;
+                          match l with [] => Ok [] | x :: l' => do v <- rec x e; do r <- go l'; Ok (v :: r) end) l;
               match vs with [] => Ok (V (TList e) (PSeq [])) | _ => if can_coll vs then list_val vs else Err OtherError end
           | _ => Err OtherError
           end
@@ -167,7 +165,7 @@ Fixpoint json_unmarshal_at (norm : str -> str) (fuel : nat) (j : jv) (t : ty) : 
           match j with
           | JArr l =>
               do vs <- (fix go (l : list jv) : res (list value) :=
-                          match l with [] => Ok [] | x :: l' => do v <- json_unmarshal_at norm f x e; do r <- go l'; Ok (v :: r) end) l;
+                          match l with [] => Ok [] | x :: l' => do v <- rec x e; do r <- go l'; Ok (v :: r) end) l;
               match vs with [] => Ok (V (TSet e) (PSet [])) | _ => if can_coll (map (fun v => fst (unmark_deep v)) vs) then set_val vs else Err OtherError end
           | _ => Err OtherError
           end
@@ -175,7 +173,7 @@ Fixpoint json_unmarshal_at (norm : str -> str) (fuel : nat) (j : jv) (t : ty) : 
           match j with
           | JObj m =>
               do kvs <- (fix go (l : list (str * jv)) : res (list (str * value)) :=
-                           match l with [] => Ok [] | kv :: l' => do v <- json_unmarshal_at norm f (snd kv) e; do r <- go l'; Ok ((fst kv, v) :: r) end) m;
+                           match l with [] => Ok [] | kv :: l' => do v <- rec (snd kv) e; do r <- go l'; Ok ((fst kv, v) :: r) end) m;
               match kvs with [] => Ok (V (TMap e) (PMap [])) | _ => if can_coll (map snd kvs) then map_val norm kvs else Err OtherError end
           | _ => Err OtherError
           end
@@ -186,7 +184,7 @@ Fixpoint json_unmarshal_at (norm : str -> str) (fuel : nat) (j : jv) (t : ty) : 
                           match l, ts with
                           | [], _ => Ok []
                           | _ :: _, [] => Err OtherError                (* too many elements *)
-                          | x :: l', te :: ts' => do v <- json_unmarshal_at norm f x te; do r <- go ts' l'; Ok (v :: r)
+                          | x :: l', te :: ts' => do v <- rec x te; do r <- go ts' l'; Ok (v :: r)
                           end) es l;
               if negb (Nat.eqb (length vs) (length es)) then Err OtherError else Ok (tuple_val vs)
           | _ => Err OtherError
@@ -200,7 +198,7 @@ Fixpoint json_unmarshal_at (norm : str -> str) (fuel : nat) (j : jv) (t : ty) : 
                            | kv :: l' =>
                                match lookup (fst kv) attrs with
                                | None => Err OtherError
-                               | Some ta => do v <- json_unmarshal_at norm f (snd kv) ta; do r <- go l'; Ok ((fst kv, v) :: r)
+                               | Some ta => do v <- rec (snd kv) ta; do r <- go l'; Ok ((fst kv, v) :: r)
                                end
                            end) m;
               (* last duplicate wins; attributes not given become null of the attribute type *)
@@ -211,7 +209,11 @@ Fixpoint json_unmarshal_at (norm : str -> str) (fuel : nat) (j : jv) (t : ty) : 
           end
       | TCap _ => Err OtherError
       end
-    end
+    end.
+Fixpoint json_unmarshal_at (norm : str -> str) (fuel : nat) : jv -> ty -> res value :=
+  match fuel with
+  | O => fun _ _ => OutOfFuel
+  | S f => json_unmarshal_step norm (json_unmarshal_at norm f)
   end.
 Definition json_unmarshal (norm : str -> str) (j : jv) (t : ty) : res value :=
   json_unmarshal_at norm (S (jv_size j)) j t.
